@@ -22,6 +22,12 @@ pure translation, identity.
 Histories: the result of a fit must not depend on earlier fits. Every case is evaluated from a freshly reloaded
 `shelxfile.fit.quatfit` (so a replay of one case sees exactly the state the run saw) and carries its own `prelude`:
 0..3 earlier calls of qtrfit()/fit_fragment() with fewer / more / equally many points, whose results are discarded.
+  seq    the module stays loaded over a whole history of 2..6 calls (a replay carries the whole history): the SAME
+         fragment and subset - the caller's very list objects, as in `for site in sites: fit_fragment(frag, src, site)` -
+         fitted again onto the same and onto different targets, the same fragment with another subset, other fragments
+         and plain qtrfit() calls in between, qtrfit() repeated on the same lists. Every step is judged like a frag / fit
+         case (its result must not depend on what was fitted before), and fit_fragment()/qtrfit() must leave the
+         caller's lists as they were (otherwise the caller's next fit of that fragment starts from other coordinates).
 Only what the property states is observed (coordinates, matrix, RMSD; the sweep counter is not).
 """
 import copy
@@ -131,7 +137,7 @@ def make_rotation(rng):
     if r < 0.25:
         return list(rng.choice(SPECIAL_QUATS)), 'special'
     if r < 0.35:
-        return small_quat(rng, rng.choice([1e-6, 1e-3, 0.05])), 'small'
+        return small_quat(rng, rng.choice([1e-6, 1e-3, 0.05, 10.0 ** rng.uniform(-8.0, -1.0)])), 'small'
     return unit_quat(rng), 'random'
 
 
@@ -306,16 +312,17 @@ def alt_rotations(rng):
     return alts
 
 
-def eval_fit(ctx, case, obs, fitr, cert, rot):
-    sig0 = f'C20|fit|{noise_tag(case["noise"])}'
+def eval_fit(ctx, case, obs, fitr, cert, rot, prefix='C20|fit', pcase=None, stream='fit', extra_tags=()):
+    sig0 = f'{prefix}|{noise_tag(case["noise"])}'
     n = len(case['src'])
     # the size of the point set (rms radius): every deviation below is judged relative to it
     size = math.sqrt(max(ssd(case['src'], [[0.0] * 3] * n), ssd(case['tgt'], [[0.0] * 3] * n)) / n)
     tags = ['fit', f'n={"3" if n == 3 else "4-9" if n < 10 else "10-30"}', noise_tag(case['noise']), 'rot=' + case['qkind'],
             'shape=' + case['shape'], scale_tag(case.get('scale', 1.0)), history_tag(case, n)] + (['mirror'] if case.get('mirror') else [])
+    tags = (list(extra_tags) + [t for t in tags if not t.startswith('history=')]) if extra_tags else tags
     ctx.count(['fit', case['src'], case['tgt']], nontrivial=n >= 3 and case['qkind'] != 'special' or case['noise'] > 0,
               tags=tags, sample=dict(stream='fit', n=n, noise=case['noise'], rot=case['qkind'], size=size, q=obs.get('q'), rmsd=obs.get('rmsd')))
-    payload = dict(case=case, stream='fit', actual={k: obs.get(k) for k in ('q', 'U', 'rmsd', 'raise')},
+    payload = dict(case=pcase or case, stream=stream, actual={k: obs.get(k) for k in ('q', 'U', 'rmsd', 'raise')},
                    model=dict(q=fitr.get('q'), U=fitr.get('U')) if fitr else None)
     if 'raise' in obs:
         ctx.fail(sig0 + '|raise=' + obs['raise'], f'qtrfit/rotmol/rmsd raised {obs["raise"]} on a non-degenerate centred point set (n={n})', payload)
@@ -393,8 +400,8 @@ def eval_fit(ctx, case, obs, fitr, cert, rot):
         ctx.fail(sig0 + '|rmsd-helper', f'rmsd() = {obs["rmsd_before"]!r} is not the root-mean-square deviation {rms(case["src"], case["tgt"])!r}', payload)
 
 
-def eval_frag(ctx, case, obs, mod):
-    sig0 = f'C20|frag|{noise_tag(case["noise"])}'
+def eval_frag(ctx, case, obs, mod, prefix='C20|frag', pcase=None, stream='frag', extra_tags=()):
+    sig0 = f'{prefix}|{noise_tag(case["noise"])}'
     frag, idx, tgt = case['frag'], case['idx'], case['tgt']
     n, k = len(frag), len(idx)
     src = [frag[i] for i in idx]
@@ -408,9 +415,10 @@ def eval_frag(ctx, case, obs, mod):
     tags = ['frag', noise_tag(case['noise']), 'rot=' + case['qkind'], 'subset=all' if k == n else 'subset=part',
             'centroid=0' if off < 1e-9 * mag else 'centroid!=0', 'motion=' + case.get('motion', 'general'),
             'net-shift=0' if shiftc < 1e-9 * mag else 'net-shift!=0', scale_tag(case.get('scale', 1.0)), history_tag(case, k)]
+    tags = (list(extra_tags) + [t for t in tags if not t.startswith('history=')]) if extra_tags else tags
     ctx.count(['frag', frag, idx, tgt], nontrivial=off > 1e-3 * size, tags=tags,
               sample=dict(stream='frag', n=n, subset=k, noise=case['noise'], centroid_offset=off, rms=obs.get('rms')))
-    payload = dict(case=case, stream='frag', actual=obs, model=mod.get('model'))
+    payload = dict(case=pcase or case, stream=stream, actual=obs, model=mod.get('model'))
     if 'raise' in obs:
         ctx.fail(sig0 + '|raise=' + obs['raise'], f'fit_fragment raised {obs["raise"]}', payload)
         return
@@ -497,39 +505,158 @@ def collinear(pts):
     return m < 1e-6 * s * s
 
 
+def retarget(rng, base):
+    """the same fragment and subset (identical coordinates) onto another rigidly moved (+ noisy) copy"""
+    other = make_frag_case(rng, prelude=False)   # only its motion is used
+    frag, idx = base['frag'], base['idx']
+    src = [frag[i] for i in idx]
+    pc = cen(src)
+    k = base.get('scale', 1.0)
+    q = other['quat']
+    trans = [rng.uniform(-30, 30) * k for _ in range(3)] if rng.random() < 0.7 else list(pc)
+    noise = rng.choice([0.0, 0.0, 1e-4, 0.02, 0.3])
+    tgt = shift(apply(quat_to_R(q), shift(src, pc, -1.0)), trans)
+    if noise:
+        tgt = [[c + rng.gauss(0, noise * k) for c in p] for p in tgt]
+    return dict(base, tgt=tgt, quat=q, qkind=other['qkind'], trans=trans, noise=noise, motion='general' if trans != list(pc) else 'about-centroid',
+                sseed=rng.getrandbits(48), prelude=[])
+
+
+def make_seq_case(rng):
+    base = make_frag_case(rng, prelude=False)
+    while len(base['frag']) < 4:
+        base = make_frag_case(rng, prelude=False)
+    steps = [dict(base, how='first')]
+    for _ in range(rng.randint(1, 5)):
+        r = rng.random()
+        if r < 0.3:      # the identical call again
+            steps.append(dict(rng.choice([st for st in steps if st['how'] in ('first', 'same-fragment-other-target', 'same-call-again')]),
+                              how='same-call-again', sseed=rng.getrandbits(48)))
+        elif r < 0.65:   # identical fragment and subset, other target
+            steps.append(dict(retarget(rng, base), how='same-fragment-other-target'))
+        elif r < 0.75:   # identical fragment, another subset of it
+            n = len(base['frag'])
+            idx = rng.sample(range(n), rng.randint(3, n))
+            steps.append(dict(retarget(rng, dict(base, idx=idx)), how='same-fragment-other-subset'))
+        elif r < 0.85:   # something else in between
+            steps.append(dict(make_frag_case(rng, prelude=False), how='other-fragment'))
+        else:            # a plain qtrfit(), repeated on the same lists
+            c = make_fit_case(rng, prelude=False)
+            steps.append(dict(c, how='qtrfit'))
+            steps.append(dict(c, how='qtrfit-again', sseed=rng.getrandbits(48)))
+    return dict(kind='seq', steps=steps, shared=rng.random() < 0.8, sseed=rng.getrandbits(48))
+
+
+def impl_seq(case):
+    """one interpreter state for the whole history. With `shared` the caller keeps ONE list object per distinct
+    fragment / subset / point set and hands it to every call (no defensive copies), as application code does."""
+    Q = fresh_module({})
+    pool = {}
+
+    def obj(x):
+        if not case.get('shared'):
+            return copy.deepcopy(x)
+        key = repr(x)
+        if key not in pool:
+            pool[key] = copy.deepcopy(x)
+        return pool[key]
+
+    outs = []
+    for st in case['steps']:
+        o = {}
+        try:
+            if st['kind'] == 'fit':
+                src, tgt = obj(st['src']), obj(st['tgt'])
+                before = (copy.deepcopy(src), copy.deepcopy(tgt))
+                q, U, _sweeps = Q.qtrfit(src, tgt, 30)
+                o['mutated'] = [nm for nm, a, b in (('source_xyz', src, before[0]), ('target_xyz', tgt, before[1])) if differs(a, b)]
+                U = [list(map(float, row)) for row in U]
+                fitted = Q.rotmol(copy.deepcopy(st['src']), U)
+                o.update(q=[float(x) for x in q], U=U, fitted=[list(map(float, p)) for p in fitted],
+                         rmsd=float(Q.rmsd(fitted, st['tgt'])), rmsd_before=float(Q.rmsd(st['src'], st['tgt'])),
+                         centroid=[float(x) for x in Q.centroid(st['tgt'])])
+            else:
+                frag, tgt = obj(st['frag']), obj(st['tgt'])
+                src = obj([st['frag'][i] for i in st['idx']])
+                before = (copy.deepcopy(frag), copy.deepcopy(src), copy.deepcopy(tgt))
+                coords, r = Q.fit_fragment(frag, src, tgt)
+                o['mutated'] = [nm for nm, a, b in (('fragment_atoms', frag, before[0]), ('source_atoms', src, before[1]),
+                                                    ('target_atoms', tgt, before[2])) if differs(a, b)]
+                o.update(coords=[list(map(float, p)) for p in coords], rms=float(r))
+        except Exception as e:  # noqa
+            o['raise'] = ename(e)
+        outs.append(o)
+    return outs
+
+
+def differs(a, b):
+    return len(a) != len(b) or any(list(p) != list(q) for p, q in zip(a, b))
+
+
+def fit_requests(case, obs):
+    reqs = [('fit', dict(p='C20', op='fit', src=case['src'], tgt=case['tgt'], sweeps=30))]
+    rng = random.Random(case['sseed'] ^ 0x5EED)
+    q = obs.get('q') or [1.0, 0.0, 0.0, 0.0]
+    samples = [unit_quat(rng) for _ in range(60)]
+    for ang in (1e-4, 1e-2, 0.3):   # neighbours of the returned quaternion
+        samples += [qmul(small_quat(rng, ang), q) for _ in range(10)]
+    nmax = sum(a * a + b * b for p, t in zip(case['src'], case['tgt']) for a, b in zip(p, t))   # ~ 2 n size^2, no floor
+    reqs.append(('cert', dict(p='C20', op='cert', src=case['src'], tgt=case['tgt'], q=q, delta=1e-9 * nmax, samples=samples)))
+    reqs.append(('rot', dict(p='C20', op='rot', pts=case['src'], other=case['tgt'],
+                             U=[x for r in obs.get('U', [[1, 0, 0], [0, 1, 0], [0, 0, 1]]) for x in r])))
+    return reqs
+
+
+def frag_requests(case):
+    return [('frag', dict(p='C20', op='frag', frag=case['frag'], src=[case['frag'][i] for i in case['idx']], tgt=case['tgt']))]
+
+
 def evaluate(ctx, cases, stream=None):
     reqs, idx, impls = [], [], []
     for ci, case in enumerate(cases):
         if case['kind'] == 'fit':
             obs = impl_fit(case)
             impls.append(obs)
-            reqs.append(dict(p='C20', op='fit', src=case['src'], tgt=case['tgt'], sweeps=30))
-            idx.append((ci, 'fit'))
-            rng = random.Random(case['sseed'] ^ 0x5EED)
-            q = obs.get('q') or [1.0, 0.0, 0.0, 0.0]
-            samples = [unit_quat(rng) for _ in range(60)]
-            for ang in (1e-4, 1e-2, 0.3):   # neighbours of the returned quaternion
-                samples += [qmul(small_quat(rng, ang), q) for _ in range(10)]
-            nmax = sum(a * a + b * b for p, t in zip(case['src'], case['tgt']) for a, b in zip(p, t))   # ~ 2 n size^2, no floor
-            reqs.append(dict(p='C20', op='cert', src=case['src'], tgt=case['tgt'], q=q, delta=1e-9 * nmax, samples=samples))
-            idx.append((ci, 'cert'))
-            reqs.append(dict(p='C20', op='rot', pts=case['src'], other=case['tgt'], U=[x for r in obs.get('U', [[1, 0, 0], [0, 1, 0], [0, 0, 1]]) for x in r]))
-            idx.append((ci, 'rot'))
-        else:
+            units = [(0, u) for u in fit_requests(case, obs)]
+        elif case['kind'] == 'frag':
             impls.append(impl_frag(case))
-            reqs.append(dict(p='C20', op='frag', frag=case['frag'], src=[case['frag'][i] for i in case['idx']], tgt=case['tgt']))
-            idx.append((ci, 'frag'))
+            units = [(0, u) for u in frag_requests(case)]
+        else:
+            outs = impl_seq(case)
+            impls.append(outs)
+            units = []
+            for si, (st, o) in enumerate(zip(case['steps'], outs)):
+                units += [(si, u) for u in (fit_requests(st, o) if st['kind'] == 'fit' else frag_requests(st))]
+        for si, (what, rq) in units:
+            reqs.append(rq)
+            idx.append((ci, si, what))
     ans = ctx.driver.batch(reqs)
     per = {}
-    for (ci, what), r in zip(idx, ans):
-        per.setdefault(ci, {})[what] = r
+    for (ci, si, what), r in zip(idx, ans):
+        per.setdefault((ci, si), {})[what] = r
     for ci, case in enumerate(cases):
         if case['kind'] == 'fit':
             ctx.stream('fit')
-            eval_fit(ctx, case, impls[ci], per[ci]['fit'], per[ci]['cert'], per[ci]['rot'])
-        else:
+            eval_fit(ctx, case, impls[ci], per[ci, 0]['fit'], per[ci, 0]['cert'], per[ci, 0]['rot'])
+        elif case['kind'] == 'frag':
             ctx.stream('frag')
-            eval_frag(ctx, case, impls[ci], per[ci]['frag'])
+            eval_frag(ctx, case, impls[ci], per[ci, 0]['frag'])
+        else:
+            ctx.stream('seq')
+            for si, (st, o) in enumerate(zip(case['steps'], impls[ci])):
+                # a failing step is replayed with the history up to it
+                pcase = dict(case, steps=case['steps'][:si + 1])
+                prefix = f'C20|seq|{st["how"]}'
+                tags = ['seq', 'step=' + st['how'], 'objects=shared' if case.get('shared') else 'objects=copied']
+                if st['kind'] == 'fit':
+                    eval_fit(ctx, st, o, per[ci, si]['fit'], per[ci, si]['cert'], per[ci, si]['rot'], prefix=prefix, pcase=pcase,
+                             stream='seq', extra_tags=tags)
+                else:
+                    eval_frag(ctx, st, o, per[ci, si]['frag'], prefix=prefix, pcase=pcase, stream='seq', extra_tags=tags)
+                if o.get('mutated'):
+                    ctx.fail(f'C20|seq|input-mutated|{"qtrfit" if st["kind"] == "fit" else "fit_fragment"}',
+                             f'{"qtrfit" if st["kind"] == "fit" else "fit_fragment"}() changed the caller\'s {", ".join(o["mutated"])}: the next fit '
+                             f'of the same lists starts from other coordinates', dict(case=pcase, stream='seq', actual=o['mutated'], expected=[]))
 
 
 def run(ctx):
@@ -539,7 +666,9 @@ def run(ctx):
                 'fitted by 3..n of their atoms onto a rigidly moved (+ noisy) copy; rigid motions: rotation about the subset centroid + '
                 'translation, rotation about the subset centroid without net shift, about the origin, about an arbitrary point, pure '
                 'translation, identity; both streams: the whole problem scaled by 1 (half) or 1e-10..1e+6 (half), all deviations '
-                'judged relative to the rms radius of the (fitted) point set; distinct by coordinates; '
+                'judged relative to the rms radius of the (fitted) point set; seq: histories of 2..6 calls in one module state - identical '
+                'fragment + subset (the same list objects in 80 %) onto the same / other targets, other subset, other fragments and qtrfit() '
+                'calls in between; distinct by coordinates; '
                 'non-trivial = rotation not one of the special ones or noise present (fit), fitted subset centroid away from the origin (frag)')
     ctx.assumptions = ['point sets are non-degenerate (not collinear; generated, not filtered)',
                        'theorems are over exact real arithmetic; Jacobi convergence is not proved, its result is certified per case '
@@ -547,6 +676,8 @@ def run(ctx):
                        'every proper rotation is R(u) for a unit quaternion u: hypothesis `hsurj` of optimal_among_proper_rotations']
     nfit = ctx.budget(250, 6000)
     nfrag = ctx.budget(250, 6000)
-    cases = [make_fit_case(ctx.rng) for _ in range(nfit)] + [make_frag_case(ctx.rng) for _ in range(nfrag)]
+    nseq = ctx.budget(150, 3000)
+    cases = [make_fit_case(ctx.rng) for _ in range(nfit)] + [make_frag_case(ctx.rng) for _ in range(nfrag)] + \
+            [make_seq_case(ctx.rng) for _ in range(nseq)]
     for i in range(0, len(cases), 400):
         evaluate(ctx, cases[i:i + 400])
